@@ -279,7 +279,9 @@ func (r *receiver) run(ctx context.Context) error {
 						}
 						metadataParents.pop()
 					}
-					if isDir {
+					if isDir && metaOnly {
+						// only pending (not selected) directories are replayed
+						// later; a selected one is forwarded right below
 						metadataParents.push(cp)
 					}
 					if metaOnly {
